@@ -1,0 +1,296 @@
+//go:build verif
+
+// Contracts for govc (see /verif/DESIGN.md). Comment-only file: with the
+// build tag off it is not part of the build, with it on it adds no code.
+
+package secretstore
+
+//@ alias HDR = "*berty.tech/weshnet/v2/pkg/protocoltypes.MessageHeaders"
+//@ alias ENV = "*berty.tech/weshnet/v2/pkg/protocoltypes.MessageEnvelope"
+//@ alias DCK = "*berty.tech/weshnet/v2/pkg/protocoltypes.DeviceChainKey"
+//@ # ======================= vocabulary =======================
+//@ # the symmetric ratchet: one HKDF stream per step, first 32 bytes = next chain key, next 32 = message key
+//@ spec func kdf_ck(ck Bytes, salt Bytes, gid Bytes) Bytes = bslice(hkdf_stream(hkdf_extract(ck, salt), gid), 0, 32)
+//@ spec func kdf_mk(ck Bytes, salt Bytes, gid Bytes) Bytes = bslice(hkdf_stream(hkdf_extract(ck, salt), gid), 32, 64)
+//@ # nonce of a message counter: big-endian counter followed by 16 zero bytes
+//@ spec func nonce_of(c Int) Bytes = bcat(be64(c), bzero(16))
+//@ # the 32-byte group secret used as secretbox key (Secret copied into a zeroed [32]byte)
+//@ spec func secret32(s Bytes) Bytes
+
+//@ # protobuf encodings of the messages the secret store writes and reads (assumed: decode(encode(x)) == x)
+//@ spec func enc_headers(counter Int, devpk Bytes, sig Bytes) Bytes
+//@ spec func enc_envelope(hdr Bytes, msg Bytes, nonce Bytes) Bytes
+//@ spec func enc_dck(ck Bytes, counter Int) Bytes
+//@ spec func dck_ck(b Bytes) Bytes
+//@ spec func dck_ctr(b Bytes) Int
+//@ spec func is_dck(b Bytes) Bool
+//@ axiom dck_roundtrip: forall c Bytes, n {enc_dck(c, n)} :: is_dck(enc_dck(c, n)) && dck_ck(enc_dck(c, n)) == c && dck_ctr(enc_dck(c, n)) == n
+//@ axiom headers_inj: forall c1, d1 Bytes, s1 Bytes, c2, d2 Bytes, s2 Bytes {enc_headers(c1, d1, s1), enc_headers(c2, d2, s2)} ::
+//@     enc_headers(c1, d1, s1) == enc_headers(c2, d2, s2) ==> c1 == c2 && d1 == d2 && s1 == s2
+
+//@ extern google.golang.org/protobuf/proto.Marshal(m) (data, err)
+//@   ensures err == nil ==> fresh(data)
+//@   ensures err == nil && typeis(m, $HDR) ==>
+//@     bytes(data) == enc_headers(as(m, $HDR).Counter,
+//@        bytes(as(m, $HDR).DevicePk), bytes(as(m, $HDR).Sig))
+//@   ensures err == nil && typeis(m, $ENV) ==>
+//@     bytes(data) == enc_envelope(bytes(as(m, $ENV).MessageHeaders),
+//@        bytes(as(m, $ENV).Message), bytes(as(m, $ENV).Nonce))
+//@   ensures err == nil && typeis(m, $DCK) ==>
+//@     bytes(data) == enc_dck(bytes(as(m, $DCK).ChainKey), as(m, $DCK).Counter)
+
+//@ extern berty.tech/weshnet/v2/pkg/cryptoutil.GenerateNonce() (n, err)
+//@   ensures err == nil ==> n != nil && fresh(n) && blen(bytes(n)) == 24
+
+//@ extern (*berty.tech/weshnet/v2/pkg/protocoltypes.Group).GetSharedSecret(g) (k)
+//@   ensures k != nil && fresh(k) && bytes(k) == secret32(bytes(g.Secret))
+
+//@ # ======================= C01: sealing and opening =======================
+
+//@ func uint64AsNonce
+//@   for C01, C09
+//@   safety
+//@   ensures [C01.nonce] result != nil && fresh(result) && bytes(result) == nonce_of(val)
+
+//@ func deriveNextKeys
+//@   for C01, C02
+//@   safety
+//@   ensures [C01.kdf] ret2 == nil ==> fresh(ret0) && bytes(ret0) == kdf_ck(bytes(chainKeyValue), bytes(salt), bytes(groupID))
+//@     && ret1 == kdf_mk(bytes(chainKeyValue), bytes(salt), bytes(groupID))
+
+//@ func sealPayload
+//@   for C01, C09
+//@   safety
+//@   requires ds != nil && devicePrivateKey != nil && g != nil
+//@   ensures [C01.seal.payload] ret2 == nil ==> bytes(ret0) == sbox_seal(bytes(payload), nonce_of((ds.Counter + 1) % 18446744073709551616),
+//@        kdf_mk(bytes(ds.ChainKey), bempty, bytes(g.PublicKey)))
+//@     && bytes(ret1) == sign(skv(devicePrivateKey), bytes(payload))
+
+//@ func sealEnvelope
+//@   for C01, C09
+//@   safety
+//@   requires deviceChainKey != nil && devicePrivateKey != nil && g != nil
+//@   ensures [C01.seal.envelope] ret1 == nil ==> exists n Bytes :: blen(n) == 24 && bytes(ret0) == enc_envelope(
+//@        sbox_seal(enc_headers((deviceChainKey.Counter + 1) % 18446744073709551616, pubof(skv(devicePrivateKey)), sign(skv(devicePrivateKey), bytes(messagePayload))), n, secret32(bytes(g.Secret))),
+//@        sbox_seal(bytes(messagePayload), nonce_of((deviceChainKey.Counter + 1) % 18446744073709551616), kdf_mk(bytes(deviceChainKey.ChainKey), bempty, bytes(g.PublicKey))),
+//@        n)
+
+//@ func (*secretStore).openPayloadWithMessageKey
+//@   for C01, C14
+//@   safety
+//@   requires decryptionCtx != nil && decryptionCtx.messageKey != nil && headers != nil && (decryptionCtx.newlyDecrypted ==> devicePublicKey != nil)
+//@   ensures [C01.open.payload] ret2 == nil ==> sbox_ok(bytes(payload), nonce_of(headers.Counter), bytes(decryptionCtx.messageKey))
+//@     && bytes(ret0) == sbox_msg(bytes(payload), nonce_of(headers.Counter), bytes(decryptionCtx.messageKey)) && ret1 == decryptionCtx
+//@   ensures [C01.open.signature] ret2 == nil && decryptionCtx.newlyDecrypted ==> verify(pkv(devicePublicKey), bytes(ret0), bytes(headers.Sig))
+//@   ensures [C01.open.reject] !sbox_ok(bytes(payload), nonce_of(headers.Counter), bytes(decryptionCtx.messageKey)) ==> ret2 != nil
+
+//@ # ======================= datastore layout =======================
+//@ spec func k_ck(g Bytes, d Bytes) Bytes = key3("chainKeyForDeviceOnGroup", hexs(g), hexs(d))
+//@ spec func k_pre(g Bytes, d Bytes, c Int) Bytes = key4("precomputedMessageKeys", hexs(g), hexs(d), decs(c))
+//@ spec func k_cid(c Bytes) Bytes = key2("messageKeyForCIDs", cidstr(c))
+//@ spec func hdr_ctr(b Bytes) Int
+//@ spec func hdr_dev(b Bytes) Bytes
+//@ spec func hdr_sig(b Bytes) Bytes
+//@ spec func env_hdr(b Bytes) Bytes
+//@ spec func env_msg(b Bytes) Bytes
+//@ spec func env_nonce(b Bytes) Bytes
+//@ axiom headers_roundtrip: forall c, d Bytes, s Bytes {enc_headers(c, d, s)} :: hdr_ctr(enc_headers(c, d, s)) == c && hdr_dev(enc_headers(c, d, s)) == d && hdr_sig(enc_headers(c, d, s)) == s
+//@ axiom envelope_roundtrip: forall h Bytes, m Bytes, n Bytes {enc_envelope(h, m, n)} :: env_hdr(enc_envelope(h, m, n)) == h && env_msg(enc_envelope(h, m, n)) == m && env_nonce(enc_envelope(h, m, n)) == n
+
+//@ extern google.golang.org/protobuf/proto.Unmarshal(b, m) (err)
+//@   modifies as(m, $DCK).ChainKey, as(m, $DCK).Counter, as(m, $HDR).Counter, as(m, $HDR).DevicePk, as(m, $HDR).Sig, as(m, $ENV).MessageHeaders, as(m, $ENV).Message, as(m, $ENV).Nonce
+//@   ensures typeis(m, $DCK) && err == nil ==> bytes(as(m, $DCK).ChainKey) == dck_ck(bytes(b)) && as(m, $DCK).Counter == dck_ctr(bytes(b))
+//@   ensures typeis(m, $DCK) && is_dck(bytes(b)) ==> err == nil
+//@   ensures typeis(m, $HDR) && err == nil ==> as(m, $HDR).Counter == hdr_ctr(bytes(b)) && bytes(as(m, $HDR).DevicePk) == hdr_dev(bytes(b)) && bytes(as(m, $HDR).Sig) == hdr_sig(bytes(b))
+//@   ensures typeis(m, $ENV) && err == nil ==> bytes(as(m, $ENV).MessageHeaders) == env_hdr(bytes(b)) && bytes(as(m, $ENV).Message) == env_msg(bytes(b)) && bytes(as(m, $ENV).Nonce) == env_nonce(bytes(b))
+
+//@ spec func hascode(e Ref, c Int) Bool
+//@ extern (berty.tech/weshnet/v2/pkg/errcode.ErrCode).Wrap(code, inner) (e)
+//@   ensures hascode(e, code)
+//@ extern berty.tech/weshnet/v2/pkg/errcode.Is(err, code) (r)
+//@   ensures (r ==> err != nil) && (err != nil && hascode(err, code) ==> r)
+
+//@ func dsKeyForCurrentChainKey
+//@   for C02, C09, C10
+//@   requires groupPublicKey != nil && devicePublicKey != nil
+//@   ensures [C02.key.chainkey] ret1 == nil ==> ret0.string == k_ck(pkv(groupPublicKey), pkv(devicePublicKey))
+
+//@ func dsKeyForPrecomputedMessageKey
+//@   for C02, C10
+//@   ensures [C02.key.precomputed] result.string == k_pre(bytes(groupPublicKey), bytes(devicePublicKey), counter)
+
+//@ func dsKeyForMessageKeyByCID
+//@   for C02, C10
+//@   ensures [C02.key.cid] result.string == k_cid(id.str)
+
+//@ extern berty.tech/weshnet/v2/pkg/cryptoutil.KeySliceToArray(keySlice) (arr, err)
+//@   ensures err == nil ==> arr != nil && fresh(arr) && len(keySlice) == 32 && bytes(arr) == bytes(keySlice)
+//@   ensures len(keySlice) != 32 ==> err != nil
+
+//@ # ----- chain key record: dsv[k_ck(g,d)] == enc_dck(chain key value, counter) -----
+//@ func (*secretStore).getDeviceChainKeyForGroupAndDevice
+//@   for C02, C09, C10
+//@   requires s != nil ==> s.datastore != nil
+//@   requires groupPublicKey != nil && devicePublicKey != nil
+//@   ensures [C02.get.chainkey] ret1 == nil ==> s != nil && dsh(s.datastore)[k_ck(pkv(groupPublicKey), pkv(devicePublicKey))] && ret0 != nil && fresh(ret0)
+//@     && bytes(ret0.ChainKey) == dck_ck(dsv(s.datastore)[k_ck(pkv(groupPublicKey), pkv(devicePublicKey))])
+//@     && ret0.Counter == dck_ctr(dsv(s.datastore)[k_ck(pkv(groupPublicKey), pkv(devicePublicKey))])
+//@   ensures [C02.get.chainkey.missing] s != nil && !dsh(s.datastore)[k_ck(pkv(groupPublicKey), pkv(devicePublicKey))] ==> ret1 != nil
+
+//@ func (*secretStore).putDeviceChainKey
+//@   for C02, C09, C10
+//@   requires s != nil ==> s.datastore != nil
+//@   requires groupPublicKey != nil && devicePublicKey != nil && deviceChainKey != nil
+//@   modifies dsv(s.datastore), dsh(s.datastore)
+//@   ensures [C02.put.chainkey] ret0 == nil ==> s != nil
+//@     && dsh(s.datastore) == store(old(dsh(s.datastore)), k_ck(pkv(groupPublicKey), pkv(devicePublicKey)), true)
+//@     && dsv(s.datastore) == store(old(dsv(s.datastore)), k_ck(pkv(groupPublicKey), pkv(devicePublicKey)), enc_dck(bytes(deviceChainKey.ChainKey), deviceChainKey.Counter))
+//@   ensures [C02.put.chainkey.fail] ret0 != nil && s != nil ==> dsh(s.datastore) == old(dsh(s.datastore)) && dsv(s.datastore) == old(dsv(s.datastore))
+
+//@ func (*secretStore).getPrecomputedMessageKey
+//@   for C01, C02, C10
+//@   requires s != nil ==> s.datastore != nil
+//@   requires groupPublicKey != nil && devicePublicKey != nil
+//@   ensures [C02.get.precomputed] ret1 == nil ==> s != nil && ret0 != nil && dsh(s.datastore)[k_pre(pkv(groupPublicKey), pkv(devicePublicKey), counter)]
+//@     && bytes(ret0) == dsv(s.datastore)[k_pre(pkv(groupPublicKey), pkv(devicePublicKey), counter)]
+//@   ensures [C02.get.precomputed.missing] s != nil && !dsh(s.datastore)[k_pre(pkv(groupPublicKey), pkv(devicePublicKey), counter)] ==> ret1 != nil
+
+//@ func (*secretStore).getKeyForCID
+//@   for C01, C02, C10
+//@   requires s != nil ==> s.datastore != nil
+//@   ensures [C02.get.cid] ret1 == nil ==> s != nil && ret0 != nil && msgCID.str != bempty && bytes(ret0) == dsv(s.datastore)[k_cid(msgCID.str)] && blen(bytes(ret0)) == 32
+//@   ensures [C02.get.cid.present] ret1 == nil ==> dsh(s.datastore)[k_cid(msgCID.str)]
+
+//@ func (*secretStore).putKeyForCID
+//@   for C02, C10
+//@   requires s != nil ==> s.datastore != nil
+//@   requires messageKey != nil
+//@   modifies dsv(s.datastore), dsh(s.datastore)
+//@   ensures [C02.put.cid] ret0 == nil && messageCID.str != bempty ==> s != nil
+//@     && dsh(s.datastore) == store(old(dsh(s.datastore)), k_cid(messageCID.str), true)
+//@     && dsv(s.datastore) == store(old(dsv(s.datastore)), k_cid(messageCID.str), bytes(messageKey))
+//@   ensures [C02.put.cid.frame] (ret0 != nil || messageCID.str == bempty) && s != nil ==> dsh(s.datastore) == old(dsh(s.datastore)) && dsv(s.datastore) == old(dsv(s.datastore))
+
+//@ func (*secretStore).delPrecomputedKey
+//@   for C02, C10
+//@   requires s != nil ==> s.datastore != nil
+//@   requires groupPublicKey != nil && devicePublicKey != nil
+//@   modifies dsv(s.datastore), dsh(s.datastore)
+//@   ensures [C02.del.precomputed] ret0 == nil ==> s != nil && dsv(s.datastore) == old(dsv(s.datastore))
+//@     && dsh(s.datastore) == store(old(dsh(s.datastore)), k_pre(pkv(groupPublicKey), pkv(devicePublicKey), msgCounter), false)
+//@   ensures [C02.del.precomputed.fail] ret0 != nil && s != nil ==> dsh(s.datastore) == old(dsh(s.datastore)) && dsv(s.datastore) == old(dsv(s.datastore))
+
+//@ # ----- precomputed message keys -----
+//@ pred prekey(g, d, keys, i) = k_pre(g, d, keys[i].counter)
+//@ pred distinctCounters(keys) = forall i, j {keys[i], keys[j]} :: 0 <= i && i < j && j < len(keys) ==> keys[i].counter != keys[j].counter
+//@ pred keysWF(keys) = forall i {keys[i]} :: 0 <= i && i < len(keys) ==> keys[i].messageKey != nil
+
+//@ func (*secretStore).putPrecomputedKeysNonBatched
+//@   for C02, C10
+//@   requires s != nil && s.datastore != nil && distinctCounters(preComputedMessageKeys) && keysWF(preComputedMessageKeys)
+//@   modifies dsv(s.datastore), dsh(s.datastore)
+//@   ensures [C02.putkeys.nonbatched] ret0 == nil ==> (forall i {preComputedMessageKeys[i]} :: 0 <= i && i < len(preComputedMessageKeys) ==>
+//@        dsh(s.datastore)[prekey(bytes(groupRaw), bytes(deviceRaw), preComputedMessageKeys, i)]
+//@        && dsv(s.datastore)[prekey(bytes(groupRaw), bytes(deviceRaw), preComputedMessageKeys, i)] == bytes(preComputedMessageKeys[i].messageKey))
+//@   ensures [C02.putkeys.nonbatched.frame] forall k Bytes {dsh(s.datastore)[k]} ::
+//@        (forall i {preComputedMessageKeys[i]} :: 0 <= i && i < len(preComputedMessageKeys) ==> k != prekey(bytes(groupRaw), bytes(deviceRaw), preComputedMessageKeys, i))
+//@        ==> dsh(s.datastore)[k] == old(dsh(s.datastore))[k] && dsv(s.datastore)[k] == old(dsv(s.datastore))[k]
+//@   loop 0 invariant -1 <= rangeindex && (rangeindex < len(preComputedMessageKeys) || len(preComputedMessageKeys) == 0 && rangeindex == -1)
+//@   loop 0 invariant forall i {preComputedMessageKeys[i]} :: 0 <= i && i <= rangeindex ==>
+//@        dsh(s.datastore)[prekey(bytes(groupRaw), bytes(deviceRaw), preComputedMessageKeys, i)]
+//@        && dsv(s.datastore)[prekey(bytes(groupRaw), bytes(deviceRaw), preComputedMessageKeys, i)] == bytes(preComputedMessageKeys[i].messageKey)
+//@   loop 0 invariant forall k Bytes {dsh(s.datastore)[k]} ::
+//@        (forall i {preComputedMessageKeys[i]} :: 0 <= i && i <= rangeindex ==> k != prekey(bytes(groupRaw), bytes(deviceRaw), preComputedMessageKeys, i))
+//@        ==> dsh(s.datastore)[k] == old(dsh(s.datastore))[k] && dsv(s.datastore)[k] == old(dsv(s.datastore))[k]
+//@   loop 0 decreases len(preComputedMessageKeys) - rangeindex
+
+//@ func (*secretStore).putPrecomputedKeysBatched
+//@   for C02, C10
+//@   requires s != nil && s.datastore != nil && batch != nil && bds(batch) == s.datastore && distinctCounters(preComputedMessageKeys) && keysWF(preComputedMessageKeys)
+//@   requires forall k Bytes {bph(batch)[k]} :: !bph(batch)[k]
+//@   modifies dsv(s.datastore), dsh(s.datastore), bpv(batch), bph(batch)
+//@   ensures [C02.putkeys.batched] ret0 == nil ==> (forall i {preComputedMessageKeys[i]} :: 0 <= i && i < len(preComputedMessageKeys) ==>
+//@        dsh(s.datastore)[prekey(bytes(groupRaw), bytes(deviceRaw), preComputedMessageKeys, i)]
+//@        && dsv(s.datastore)[prekey(bytes(groupRaw), bytes(deviceRaw), preComputedMessageKeys, i)] == bytes(preComputedMessageKeys[i].messageKey))
+//@   ensures [C02.putkeys.batched.frame] forall k Bytes {dsh(s.datastore)[k]} ::
+//@        (forall i {preComputedMessageKeys[i]} :: 0 <= i && i < len(preComputedMessageKeys) ==> k != prekey(bytes(groupRaw), bytes(deviceRaw), preComputedMessageKeys, i))
+//@        ==> dsh(s.datastore)[k] == old(dsh(s.datastore))[k] && dsv(s.datastore)[k] == old(dsv(s.datastore))[k]
+//@   ensures [C02.putkeys.batched.atomic] ret0 != nil ==> dsh(s.datastore) == old(dsh(s.datastore)) && dsv(s.datastore) == old(dsv(s.datastore))
+//@   loop 0 invariant -1 <= rangeindex && (rangeindex < len(preComputedMessageKeys) || len(preComputedMessageKeys) == 0 && rangeindex == -1)
+//@   loop 0 invariant dsh(s.datastore) == old(dsh(s.datastore)) && dsv(s.datastore) == old(dsv(s.datastore)) && bds(batch) == s.datastore
+//@   loop 0 invariant forall i {preComputedMessageKeys[i]} :: 0 <= i && i <= rangeindex ==>
+//@        bph(batch)[prekey(bytes(groupRaw), bytes(deviceRaw), preComputedMessageKeys, i)]
+//@        && bpv(batch)[prekey(bytes(groupRaw), bytes(deviceRaw), preComputedMessageKeys, i)] == bytes(preComputedMessageKeys[i].messageKey)
+//@   loop 0 invariant forall k Bytes {bph(batch)[k]} ::
+//@        (forall i {preComputedMessageKeys[i]} :: 0 <= i && i <= rangeindex ==> k != prekey(bytes(groupRaw), bytes(deviceRaw), preComputedMessageKeys, i))
+//@        ==> !bph(batch)[k]
+//@   loop 0 decreases len(preComputedMessageKeys) - rangeindex
+
+//@ func (*secretStore).putPrecomputedKeys
+//@   for C02, C10
+//@   requires s != nil ==> s.datastore != nil && s.logger != nil
+//@   requires groupPublicKey != nil && devicePublicKey != nil && distinctCounters(preComputedMessageKeys) && keysWF(preComputedMessageKeys)
+//@   modifies dsv(s.datastore), dsh(s.datastore)
+//@   ensures [C02.putkeys] ret0 == nil ==> s != nil && (forall i {preComputedMessageKeys[i]} :: 0 <= i && i < len(preComputedMessageKeys) ==>
+//@        dsh(s.datastore)[prekey(pkv(groupPublicKey), pkv(devicePublicKey), preComputedMessageKeys, i)]
+//@        && dsv(s.datastore)[prekey(pkv(groupPublicKey), pkv(devicePublicKey), preComputedMessageKeys, i)] == bytes(preComputedMessageKeys[i].messageKey))
+//@   ensures [C02.putkeys.frame] s != nil ==> (forall k Bytes {dsh(s.datastore)[k]} ::
+//@        (forall i {preComputedMessageKeys[i]} :: 0 <= i && i < len(preComputedMessageKeys) ==> k != prekey(pkv(groupPublicKey), pkv(devicePublicKey), preComputedMessageKeys, i))
+//@        ==> dsh(s.datastore)[k] == old(dsh(s.datastore))[k] && dsv(s.datastore)[k] == old(dsv(s.datastore))[k])
+
+//@ # ----- own member/device pair -----
+//@ pred omdOK(m) = m != nil && m.device != nil && m.member != nil && m.public != nil && m.public.device != nil && m.public.member != nil
+//@     && pkv(m.public.device) == pubof(skv(m.device)) && pkv(m.public.member) == pubof(skv(m.member))
+//@ func (*ownMemberDevice).Device
+//@   for C09, C11
+//@   requires d != nil && d.public != nil
+//@   ensures result == d.public.device
+//@ func (*ownMemberDevice).Member
+//@   for C09, C11
+//@   requires d != nil && d.public != nil
+//@   ensures result == d.public.member
+//@ func newOwnMemberDevice
+//@   for C11
+//@   requires member != nil && device != nil
+//@   ensures [C11.omd] fresh(result) && omdOK(result) && result.member == member && result.device == device
+//@ func newMemberDevice
+//@   for C11
+//@   ensures fresh(result) && result.member == member && result.device == device
+
+//@ extern (*berty.tech/weshnet/v2/pkg/protocoltypes.Group).GetPubKey(m) (pk, err)
+//@   ensures err == nil ==> pk != nil && fresh(pk) && pkv(pk) == bytes(m.PublicKey) && len(m.PublicKey) == 32
+//@   ensures err != nil ==> pk == nil
+
+//@ # ----- the ratchet steps (all under the message mutex) -----
+//@ pred ckval(s, g, d) = dck_ck(dsv(s.datastore)[k_ck(g, d)])
+//@ pred ckctr(s, g, d) = dck_ctr(dsv(s.datastore)[k_ck(g, d)])
+
+//@ func (*secretStore).preComputeNextKey
+//@   for C02, C09, C10, C14
+//@   requires s != nil ==> s.datastore != nil && s.logger != nil
+//@   requires groupPublicKey != nil
+//@   modifies dsv(s.datastore), dsh(s.datastore)
+//@   ensures [C02.next.result] ret1 == nil ==> s != nil && devicePublicKey != nil && old(dsh(s.datastore))[k_ck(pkv(groupPublicKey), pkv(devicePublicKey))] && ret0 != nil && fresh(ret0)
+//@     && ret0.Counter == (old(ckctr(s, pkv(groupPublicKey), pkv(devicePublicKey))) + 1) % 18446744073709551616
+//@     && bytes(ret0.ChainKey) == kdf_ck(old(ckval(s, pkv(groupPublicKey), pkv(devicePublicKey))), bempty, pkv(groupPublicKey))
+//@   ensures [C02.next.key] ret1 == nil ==>
+//@        dsh(s.datastore)[k_pre(pkv(groupPublicKey), pkv(devicePublicKey), (old(ckctr(s, pkv(groupPublicKey), pkv(devicePublicKey))) + 1) % 18446744073709551616)]
+//@     && dsv(s.datastore)[k_pre(pkv(groupPublicKey), pkv(devicePublicKey), (old(ckctr(s, pkv(groupPublicKey), pkv(devicePublicKey))) + 1) % 18446744073709551616)]
+//@          == kdf_mk(old(ckval(s, pkv(groupPublicKey), pkv(devicePublicKey))), bempty, pkv(groupPublicKey))
+//@   ensures [C02.next.frame] s != nil && devicePublicKey != nil ==> (forall k Bytes {dsh(s.datastore)[k]} ::
+//@        k != k_pre(pkv(groupPublicKey), pkv(devicePublicKey), (old(ckctr(s, pkv(groupPublicKey), pkv(devicePublicKey))) + 1) % 18446744073709551616)
+//@        ==> dsh(s.datastore)[k] == old(dsh(s.datastore))[k] && dsv(s.datastore)[k] == old(dsv(s.datastore))[k])
+
+//@ func (*secretStore).updateCurrentKey
+//@   for C02, C09, C10
+//@   requires s != nil ==> s.datastore != nil
+//@   requires groupPublicKey != nil && devicePublicKey != nil && deviceChainKey != nil
+//@   modifies dsv(s.datastore), dsh(s.datastore)
+//@   ensures [C09.update.skip] ret0 == nil && deviceChainKey.Counter < old(ckctr(s, pkv(groupPublicKey), pkv(devicePublicKey))) ==>
+//@        dsh(s.datastore) == old(dsh(s.datastore)) && dsv(s.datastore) == old(dsv(s.datastore))
+//@   ensures [C09.update.store] ret0 == nil && deviceChainKey.Counter >= old(ckctr(s, pkv(groupPublicKey), pkv(devicePublicKey))) ==>
+//@        dsh(s.datastore) == store(old(dsh(s.datastore)), k_ck(pkv(groupPublicKey), pkv(devicePublicKey)), true)
+//@     && dsv(s.datastore) == store(old(dsv(s.datastore)), k_ck(pkv(groupPublicKey), pkv(devicePublicKey)), enc_dck(bytes(deviceChainKey.ChainKey), deviceChainKey.Counter))
+//@   ensures [C09.update.monotone] s != nil ==> ckctr(s, pkv(groupPublicKey), pkv(devicePublicKey)) >= old(ckctr(s, pkv(groupPublicKey), pkv(devicePublicKey)))
+//@   ensures [C09.update.fail] ret0 != nil && s != nil ==> dsh(s.datastore) == old(dsh(s.datastore)) && dsv(s.datastore) == old(dsv(s.datastore))
+//@   ensures ret0 == nil ==> s != nil && old(dsh(s.datastore))[k_ck(pkv(groupPublicKey), pkv(devicePublicKey))]
